@@ -1,4 +1,5 @@
 """C05 -- a motion is valid exactly when every resolution step along it is valid."""
+import copy
 PROPERTY = "C05"
 LEVEL = "proof"
 
@@ -43,15 +44,92 @@ __CPROVER_decreases(nd - j)
     ),
 ]
 
+BISECT_RULES = MV_RULES + [
+    (r"std::queue<std::pair<int, int>> pos;", "", 1),
+    (r"\bpos\.emplace\(", "pos_emplace(", 3),
+    (r"\bpos\.empty\(\)", "pos_empty()", 1),
+    (r"\bpos\.front\(\)", "pos_front()", 1),
+    (r"\bpos\.pop\(\)", "pos_pop()", 1),
+    (r"std::pair<int, int> x", "pair_int_int x", 1),
+]
+BISECT_LOOP = """
+__CPROVER_assigns(result, checked_G, checks_at_G, any_invalid, last_invalid_idx, frac_num, frac_den, frac_val, Q_n, Q_cov, Q_wf, Q_len, Q_front_covers, Q_front_val, *test)
+__CPROVER_loop_invariant(result && !any_invalid && nd == ND && Q_wf && 0 <= Q_cov && Q_cov <= Q_n && Q_n <= Q_len && Q_len <= ND - 1 && live_tmp == 1 && tmp_ptr == test)
+__CPROVER_loop_invariant(G == IDX_S2 || ((checked_G && VG && checks_at_G == 1 && Q_cov == 0) || (!checked_G && checks_at_G == 0 && Q_cov == 1)))
+__CPROVER_loop_invariant(G == IDX_S2 ==> (checked_G && VG && checks_at_G == 1 && Q_cov == 0))
+__CPROVER_decreases(Q_len)
+"""
+UNITS.append(dict(
+    name="c05_checkMotion_bisection",
+    template="C05/checkMotion_bisect.c",
+    functions=["ompl::base::DiscreteMotionValidator::checkMotion(const State*, const State*)"],
+    sources=[dict(
+        name="checkMotion", file=DMV,
+        sig=r"bool\s+ompl::base::DiscreteMotionValidator::checkMotion\s*\(\s*const State \*s1,\s*const State \*s2\)\s*const",
+        rules=BISECT_RULES, loops={1: BISECT_LOOP})],
+    enforce=["checkMotion"],
+    replace=["validSegmentCount", "interpolate", "isValid", "allocState", "freeState", "FDIV", "pos_empty", "pos_emplace", "pos_front", "pos_pop"],
+    backend="cadical", timeout=900,
+    tiers=dict(quick=dict(defines={"ND_MAX": 1048576})),
+    confirm=dict(unwind=9, defines={"ND_MAX": 8}),
+    canaries=[
+        dict(name="skips_left_half_end", where="body:checkMotion", rx=r"x\.first < mid\)", repl="x.first < mid - 1)"),
+        dict(name="s2_not_counted", where="body:checkMotion", rx=r"invalid_\+\+;\s*return false;", repl="return false;", count=1),
+    ],
+))
+
+# ---- Dubins / Reeds-Shepp / Dubins3D validators: same loop shapes, cached-curve interpolate ----
+def _curve_rules(base):
+    return [
+        # interpolate(s1, s2, t, firstTime, path, out) -> interpolate(s1, s2, t, out): the cached curve is an
+        # optimisation of interpolate(s1,s2,t,out) (abstraction, stated in evidence)
+        (r"stateSpace_->interpolate\(s1, s2, ([^,;]+), firstTime, path, ", r"stateSpace_->interpolate(s1, s2, \1, ", 1),
+        (r"(?:DubinsStateSpace::DubinsPath|ReedsSheppStateSpace::ReedsSheppPath) path;", "", 1),
+    ] + base
+
+def _d3_rules(base):
+    return [
+        (r"stateSpace_->interpolate\(s1, s2, ([^,;]+), \*path, ", r"stateSpace_->interpolate(s1, s2, \1, ", 1),
+        (r"auto path = stateSpace_->getPath\(s1, s2\);", "bool path = getPath(s1, s2);", 1),
+    ] + base
+
+CURVES = [
+    ("dubins", "src/ompl/base/spaces/src/DubinsStateSpace.cpp", r"bool\s+DubinsMotionValidator::checkMotion", _curve_rules, {}, "ompl::base::DubinsMotionValidator"),
+    ("reedsshepp", "src/ompl/base/spaces/src/ReedsSheppStateSpace.cpp", r"bool\s+ompl::base::ReedsSheppMotionValidator::checkMotion", _curve_rules, {}, "ompl::base::ReedsSheppMotionValidator"),
+    ("dubins3d", "src/ompl/base/spaces/Dubins3DMotionValidator.h", r"bool\s+checkMotion", _d3_rules, {"WITH_PATH": 1}, "ompl::base::Dubins3DMotionValidator"),
+]
+for cname, cfile, csig, crules, cdef, cls in CURVES:
+    lv = copy.deepcopy(UNITS[0])
+    lv["name"] = "c05_%s_checkMotion_lastvalid" % cname
+    lv["functions"] = [cls + "::checkMotion(s1, s2, lastValid)"]
+    lv["sources"][0].update(file=cfile, rules=crules(MV_RULES),
+                            sig=csig + r"\s*\(\s*const State \*s1,\s*const State \*s2,\s*std::pair<State \*, double> &lastValid\)\s*const")
+    lv["defines"] = dict(cdef)
+    lv["replace"] = lv["replace"] + ["getPath"]
+    lv["canaries"] = lv["canaries"][:1]
+    UNITS.append(lv)
+    bi = copy.deepcopy(UNITS[1])
+    bi["name"] = "c05_%s_checkMotion_bisection" % cname
+    bi["functions"] = [cls + "::checkMotion(s1, s2)"]
+    bi["sources"][0].update(file=cfile, rules=crules(BISECT_RULES),
+                            sig=csig + r"\s*\(\s*const State \*s1,\s*const State \*s2\)\s*const")
+    bi["defines"] = dict(cdef)
+    bi["replace"] = bi["replace"] + ["getPath"]
+    bi["canaries"] = bi["canaries"][1:]
+    bi["tiers"] = dict(quick=dict(defines={"ND_MAX": 1048576}))
+    UNITS.append(bi)
+
 ASSUMPTIONS = [
     "s1 is valid (documented precondition of checkMotion); validity checker and interpolate are deterministic user callbacks",
     "0 <= validSegmentCount <= 1e9 (so that int arithmetic on indices cannot overflow)",
     "FDIV(a,b) = (double)a/(double)b is modelled by IEEE facts only: in [0,1) for 0<=a<b, ==0 for a==0, ==1 for a==b, not NaN for b!=0",
     "valid_/invalid_ counters below 4e9 (no unsigned wrap-around)",
+    "Dubins/ReedsShepp/Dubins3D: interpolate(s1,s2,t,firstTime,path,out) / (…,*path,out) is treated as interpolate(s1,s2,t,out) (cached curve = optimisation); Dubins3D: last-valid clauses (C05.c/d) are stated only when a connecting path exists, the counter clause (C05.e) unconditionally",
 ]
 TRUSTED = [
     "extraction rewrite table of units/C05.py (regex rules, must-fire counts)",
     "stub contracts in units/C05/prelude.h: validSegmentCount, interpolate, isValid, allocState, freeState, FDIV",
+    "assumed contract on std::queue<std::pair<int,int>> (units/C05/queue.h): multiset-of-intervals abstraction relative to the ghost index, FIFO order forgotten",
     "CBMC 6.11 goto-instrument DFCC + kissat",
 ]
 NOT_COVERED = []
